@@ -5,7 +5,7 @@ set -u
 export GOFLAGS=-mod=mod GOPROXY=off GOSUMDB=off GOTOOLCHAIN=local
 wt=$1; sd=$2; shift 2
 cd "$wt" || exit 9
-git checkout -q -- . ; rm -rf zz_demo_test.go zz_seed; git checkout -q --detach $(git -C /repo rev-parse HEAD)
+git checkout -q -- . ; rm -rf zz_demo_test.go zz_seed; base=${SEED_BASE:-$(cat /tmp/sq/base 2>/dev/null || git -C /repo rev-parse HEAD)}; git checkout -q --detach $base
 pkg=$(grep -m1 '^package' "$sd/demo_test.go" | awk '{print $2}')
 if [ "$pkg" = "ojg_test" ]; then cp "$sd/demo_test.go" zz_demo_test.go; tgt=.; else mkdir -p zz_seed; cp "$sd/demo_test.go" zz_seed/demo_test.go; tgt=./zz_seed/; fi
 echo "== demo without patch (must pass)"; go test -vet=off -count=1 -run 'TestSeed' $tgt 2>&1 | tail -2
